@@ -642,3 +642,127 @@ theorem C17_adder_po2_po2_counterexample :
   omega
 
 end QKV.Props.C17
+
+/-! ## histories: the k-th derivation in a process equals a fresh one (strengthening round, seed C17-7) -/
+namespace QKV.Props.C17
+open QKV
+
+/-- table invariant of a memo whose key determines the result -/
+private def TblOK {α β κ : Type} [DecidableEq κ] (key : α → κ) (f : α → β) (tbl : List (κ × β)) : Prop :=
+  ∀ k b, memoFind k tbl = some b → ∀ a, key a = k → f a = b
+
+private theorem memoRun_of_ok {α β κ : Type} [DecidableEq κ] (key : α → κ) (f : α → β)
+    (hkey : ∀ a a', key a = key a' → f a = f a') (hist : List α) :
+    ∀ tbl, TblOK key f tbl → memoRun key f tbl hist = hist.map f := by
+  induction hist with
+  | nil => intro tbl _; rfl
+  | cons a rest ih =>
+    intro tbl hok
+    simp only [memoRun, List.map_cons]
+    cases hfind : memoFind (key a) tbl with
+    | some b =>
+      simp only
+      rw [ih tbl hok, hok (key a) b hfind a rfl]
+    | none =>
+      simp only
+      rw [ih ((key a, f a) :: tbl)]
+      intro k b hb a' ha'
+      simp only [memoFind] at hb
+      split at hb
+      · rename_i hk
+        simp only [Option.some.injEq] at hb
+        rw [← hb]; exact hkey a' a (by rw [ha', hk])
+      · exact hok k b hb a' ha'
+
+/-- HISTORY INDEPENDENCE: a factory that remembers earlier derivations under a key that DETERMINES the
+    result answers every history of requests — any length, any order, any repetitions — exactly like
+    the pure factory: the k-th derivation equals a fresh one. -/
+theorem C17_history_memo_sound {α β κ : Type} [DecidableEq κ] (key : α → κ) (f : α → β)
+    (hkey : ∀ a a', key a = key a' → f a = f a') (hist : List α) :
+    memoRun key f [] hist = hist.map f :=
+  memoRun_of_ok key f hkey hist [] (by intro k b h; simp [memoFind] at h)
+
+/-- the full operand records are such a key for the adder factory (and so is any key that keeps every
+    field the model reads): the memoised adder factory is history independent -/
+theorem C17_history_adder_full_key (hist : List (QRec × QRec)) :
+    memoRun (fun p => p) (fun p : QRec × QRec => makeAdder p.1 p.2) [] hist = adderHistory hist :=
+  C17_history_memo_sound _ _ (by intro a a' h; rw [h]) hist
+
+/-- conversely a key that does NOT determine the result is observable: for ANY two requests with equal
+    keys and different results, the history `[a, a']` gets the first answer twice -/
+theorem C17_history_memo_unsound {α β κ : Type} [DecidableEq κ] (key : α → κ) (f : α → β)
+    (a a' : α) (hk : key a = key a') (hne : f a ≠ f a') :
+    memoRun key f [] [a, a'] = [f a, f a] ∧ memoRun key f [] [a, a'] ≠ [a, a'].map f := by
+  have e : memoRun key f [] [a, a'] = [f a, f a] := by
+    simp [memoRun, memoFind, hk]
+  refine ⟨e, ?_⟩
+  rw [e]; simp only [List.map_cons, List.map_nil]
+  intro h
+  exact hne (by simpa using h)
+
+/-- COUNTEREXAMPLE for the key `(mode, bits, int_bits, is_signed)` per operand (seed C17-7): it forgets
+    `max_val_po2`.  `quantized_po2(4, max_value=1)` and `quantized_po2(4)` have the same key, their adders
+    with `quantized_bits(6,0,unsigned)` differ — `(8,1,signed)` against `(11,4,signed)` — and the first
+    one, handed out for the second request, cannot hold `-8 + 0`. -/
+theorem C17_history_key_without_cap_counterexample :
+    let a : QRec := { tPowerOfTwo with bits := 4, intBits := 4, signed := true, maxValPo2 := some 1 }
+    let b : QRec := { tPowerOfTwo with bits := 4, intBits := 4, signed := true }
+    let f : QRec := { tQuantizedBits with bits := 6, intBits := 0, signed := false }
+    opKey4 a = opKey4 b ∧
+    makeAdder a f = some { tQuantizedBits with bits := 8, intBits := 1, signed := true } ∧
+    makeAdder b f = some { tQuantizedBits with bits := 11, intBits := 4, signed := true } ∧
+    ValPo2 b (-8) ∧ ValFixed 6 0 false 0 ∧ ¬ ValFixed 8 1 true (-8 + 0) := by
+  have h1 : ceilLog2Rat 1 = 0 := by simpa [pow2] using ceilLog2Rat_pow2 0
+  refine ⟨by decide, ?_, by decide, ⟨3, by decide, by decide, Or.inr ⟨rfl, by simp [pow2]⟩⟩,
+    ⟨0, by decide, by decide, by simp⟩, ?_⟩
+  · simp [makeAdder, addTable, po2FixedAdder, fixedPointAdder, po2QbitsConverter, po2ToQbits, getExp,
+      po2Half, po2MaxExpRaw, h1, tPowerOfTwo, tQuantizedBits, b2i, imax, imin]
+  · rintro ⟨k, h1', _, h⟩
+    have hk : (-128 : ℤ) ≤ k := by simpa [fixedLo] using h1'
+    simp [fixedLsb, b2i, pow2] at h
+    have : (k : ℚ) = -512 := by linarith
+    have : k = -512 := by exact_mod_cast this
+    omega
+
+/-- COUNTEREXAMPLE (new finding C17-merge-same-ignores-cap, present on the unchanged tree):
+    `merge_factory.Maximum` (also Minimum / Average / Concatenate) takes the FIRST input's type when all
+    inputs agree in name, bits, int_bits and sign — `max_val_po2` is not compared.
+    `Maximum[quantized_po2(4, max_value=1), quantized_po2(4)]` is reported as `quantized_po2(4, max_value=1)`
+    and cannot hold the second input's value 8. -/
+theorem C17_merge_max_po2_cap_counterexample :
+    let a : QRec := { tPowerOfTwo with bits := 4, intBits := 4, signed := true, maxValPo2 := some 1 }
+    let b : QRec := { tPowerOfTwo with bits := 4, intBits := 4, signed := true }
+    mergeMax [a, b] = some a ∧ ValPo2 b 8 ∧ ¬ ValPo2 a 8 := by
+  have h1 : ceilLog2Rat 1 = 0 := by simpa [pow2] using ceilLog2Rat_pow2 0
+  refine ⟨by decide, ⟨3, by decide, by decide, Or.inl (by simp [pow2])⟩, ?_⟩
+  rintro ⟨e, _, he, hv⟩
+  have he0 : e ≤ 0 := by
+    simpa [po2MaxExpRaw, po2Half, h1, tPowerOfTwo, imin] using he
+  have hp : pow2 e ≤ 1 := by
+    have := pow2_le_pow2 he0
+    simpa [pow2] using this
+  have hpos := pow2_pos e
+  rcases hv with hv | ⟨_, hv⟩ <;> linarith
+
+/-- PARTIAL (what the shortcut does guarantee): when the inputs also agree in `max_val_po2` — i.e. the
+    shortcut is taken for po2 inputs of one type — every value of every input is a value of the result -/
+theorem C17_merge_max_po2_same_partial (q0 : QRec) (rest : List QRec)
+    (hsame : ∀ r ∈ rest, sameType q0 r = true ∧ r.maxValPo2 = q0.maxValPo2)
+    (r : QRec) (hr : r ∈ q0 :: rest) (v : ℚ) (hv : ValPo2 r v) :
+    mergeMax (q0 :: rest) = some q0 ∧ ValPo2 q0 v := by
+  have hall : rest.all (sameType q0) = true := List.all_eq_true.2 fun x hx => (hsame x hx).1
+  refine ⟨by simp [mergeMax, hall], ?_⟩
+  rcases List.mem_cons.1 hr with rfl | hr'
+  · exact hv
+  · obtain ⟨hs, hm⟩ := hsame r hr'
+    simp only [sameType, Bool.and_eq_true, decide_eq_true_eq] at hs
+    obtain ⟨⟨⟨_, hb⟩, _⟩, hsg⟩ := hs
+    obtain ⟨e, h1, h2, h3⟩ := hv
+    have hh : po2Half r = po2Half q0 := by simp [po2Half, hb, hsg]
+    have hx : po2MaxExpRaw r = po2MaxExpRaw q0 := by simp [po2MaxExpRaw, hh, hm]
+    refine ⟨e, by rw [← hh]; exact h1, by rw [← hx]; exact h2, ?_⟩
+    rcases h3 with h3 | ⟨h3, h4⟩
+    · exact Or.inl h3
+    · exact Or.inr ⟨by rw [hsg]; exact h3, h4⟩
+
+end QKV.Props.C17
